@@ -256,9 +256,10 @@ Definition rep_sample_dur (dflt codec ts : Z) : Z :=
 
 (** the frame duration generateTimelineEntriesFromRef works with (asset.go L547). [cdur] is
     [*rep.ConstantSampleDuration] (0 for nil), the frame duration measured on the segments that admission
-    checks and createAudioSeg uses; the code as it is does not look at it (finding
-    mpd-audio-sampledur-zero, proposed_fixes/C03-timeline-sampledur.diff makes it the first choice). *)
-Definition mpd_frame_dur (cdur dflt codec ts : Z) : Z := rep_sample_dur dflt codec ts.
+    checks and createAudioSeg uses; it is the first choice (since the fix of finding
+    mpd-audio-sampledur-zero), [RepData.sampleDur()] the fallback. *)
+Definition mpd_frame_dur (cdur dflt codec ts : Z) : Z :=
+  if negb (cdur =? 0) then cdur else rep_sample_dur dflt codec ts.
 
 (** the audio SegmentTimeline as LiveMPD computes it (livempd.go L256) *)
 Definition mpd_audio_timeline (startNr refT : Z) (entries : list (Z * Z)) (r cdur dflt codec a : Z) : res (list sentry) :=
